@@ -1,12 +1,22 @@
 /-
 C17 — specification helpers equal their documented closed forms.
-Property theorems only (lemmas in Proofs/Helpers.lean, Proofs/HelpersAnalysis.lean).
+Property theorems only (lemmas in Proofs/Helpers.lean, Proofs/HelpersAnalysis.lean,
+Proofs/HelpersBuild.lean).
 All statements are about the `ℝ` instance of the definitions of Model/Helpers.lean — the same
 definitions the driver runs on `Float`.
+
+Round 3: the section "the formulas the helpers build" is about the expression TREES the helpers
+return (Model/HelpersBuild.lean: one constructor per `biogeme.expressions` node, built with the
+statements of the Python sources).  On every run the harness reads the real signature text of
+each formula a helper built back into such a tree (with the model of the engine's reader) and
+the driver checks, node by node, that it is the tree built here; the theorems below say that
+this tree, evaluated with the node semantics of the engine, has the documented closed form.
 -/
 import Model.Helpers
+import Model.HelpersBuild
 import Proofs.Helpers
 import Proofs.HelpersAnalysis
+import Proofs.HelpersBuild
 
 open Helpers MeasureTheory Filter Topology
 
@@ -346,5 +356,142 @@ example : NestsOK nestsEx := by
   · simp only [nestsEx, List.pairwise_cons, List.mem_cons, List.not_mem_nil, or_false, forall_eq,
       IsEmpty.forall_iff, implies_true, List.Pairwise.nil, and_true]
     rintro x (rfl | rfl) <;> decide
+
+/-! ### the formulas the helpers build
+
+`HE ℝ` = expression tree, `evalT env` = its value with the engine's node semantics in the
+environment `env` (values of the parameters and of the data variables of one row).  `X`, `L`,
+`MU`, … are arbitrary argument expressions (a `Variable`, a `Beta`, a `Numeric`, or any formula). -/
+
+section built
+open HelpersBuild
+
+/-- **`piecewise_variables`**: the expressions it builds evaluate to the model's variables — on
+every number type, hence bit for bit on `Float` too. -/
+theorem pw_variables_built {α : Type} [NumOps α] (env : Expr.Env α) (X : HE α) (ths : List (Option α)) :
+    (pwVarsE X ths).map (evalT env) = pwVars (evalT env X) ths :=
+  pwVars_built env X ths
+
+/-- … as many as there are intervals -/
+theorem pw_variables_built_count {α : Type} [NumOps α] (X : HE α) (ths : List (Option α)) :
+    (pwVarsE X ths).length = ths.length - 1 :=
+  pwVarsE_length X ths
+
+/-- … and, closed ends, they sum to the clipped distance from the first threshold. -/
+theorem pw_variables_built_sum_clip (env : Expr.Env ℝ) (X : HE ℝ) (t0 : ℝ) (ts : List ℝ)
+    (h : (t0 :: ts).Pairwise (· ≤ ·)) :
+    Num.sum ((pwVarsE X (mkThs false (t0 :: ts) false)).map (evalT env))
+      = max 0 (min (evalT env X - t0) (ts.getLastD t0 - t0)) := by
+  rw [pwVars_built]; exact pw_sum_clip (evalT env X) t0 ts h
+
+/-- **The formula `piecewise_formula` builds coincides with the plain piecewise function**, for
+every argument expression, every weakly increasing threshold list (open or closed ends, any first
+threshold) and every list of parameter expressions. -/
+theorem pw_formula_built_eq_function (env : Expr.Env ℝ) (X : HE ℝ) (openL openR : Bool) (t : ℝ)
+    (ts : List ℝ) (Bs : List (HE ℝ)) (h : (t :: ts).Pairwise (· ≤ ·)) :
+    evalT env (pwFormulaE X (mkThs openL (t :: ts) openR) Bs)
+      = pwFunction (evalT env X) (mkThs openL (t :: ts) openR) (Bs.map (evalT env)) := by
+  rw [pwFormula_built]; exact pw_formula_eq_function _ openL openR t ts _ h
+
+/-- **The formula `piecewise_as_variable` builds** is the piecewise function with first slope 1. -/
+theorem pw_as_variable_built_eq_function (env : Expr.Env ℝ) (X : HE ℝ) (openL openR : Bool) (t : ℝ)
+    (ts : List ℝ) (Bs : List (HE ℝ)) (h : (t :: ts).Pairwise (· ≤ ·)) :
+    evalT env (pwAsVariableE X (mkThs openL (t :: ts) openR) Bs)
+      = pwFunction (evalT env X) (mkThs openL (t :: ts) openR) (1 :: Bs.map (evalT env)) := by
+  rw [pwAsVariable_built]; exact pw_as_variable_eq_function _ openL openR t ts _ h
+
+/-- **The formula `boxcox` builds** (two nested `Elem`, `Power` or `PowerConstant` according to the
+kind of the exponent) is `(x^ℓ − 1)/ℓ` outside the switching interval, … -/
+theorem boxcox_built_regular (env : Expr.Env ℝ) (X L : HE ℝ) (hx : evalT env X ≠ 0)
+    (hl : ¬(-1e-5 < evalT env L ∧ evalT env L < 1e-5)) :
+    evalT env (boxcoxE X L) = (evalT env X ^ evalT env L - 1) / evalT env L := by
+  rw [boxcox_built]; exact boxcox_regular _ _ hx hl
+
+/-- … within the Taylor remainder of it inside, … -/
+theorem boxcox_built_series_bound (env : Expr.Env ℝ) (X L : HE ℝ) (hx : 0 < evalT env X)
+    (hl0 : evalT env L ≠ 0) (hl : -1e-5 < evalT env L ∧ evalT env L < 1e-5)
+    (hy : |evalT env L * Real.log (evalT env X)| ≤ 1) :
+    |evalT env (boxcoxE X L) - (evalT env X ^ evalT env L - 1) / evalT env L|
+      ≤ |Real.log (evalT env X)| ^ 5 * |evalT env L| ^ 4 / 100 := by
+  rw [boxcox_built]; exact boxcox_series_bound _ _ hx hl0 hl hy
+
+/-- … `log x` at ℓ = 0 and 0 at x = 0. -/
+theorem boxcox_built_special (env : Expr.Env ℝ) (X L : HE ℝ) :
+    (evalT env X ≠ 0 → evalT env L = 0 → evalT env (boxcoxE X L) = Real.log (evalT env X)) ∧
+    (evalT env X = 0 → evalT env (boxcoxE X L) = 0) := by
+  rw [boxcox_built]
+  exact ⟨fun hx hl => by rw [hl]; exact boxcox_at_zero _ hx, fun hx => by rw [hx]; exact boxcox_of_zero _⟩
+
+/-- **The formulas the density helpers build** have the textbook closed forms. -/
+theorem densities_built (env : Expr.Env ℝ) (X P Q R : HE ℝ) :
+    let x := evalT env X; let p := evalT env P; let q := evalT env Q; let r := evalT env R
+    evalT env (normalpdfE X P Q) = Real.exp (-(x - p) ^ 2 / (2 * q ^ 2)) / (q * 2.506628275) ∧
+    evalT env (lognormalpdfE X P Q)
+      = (if 0 < x then Real.exp (-(Real.log x - p) ^ 2 / (2 * q ^ 2)) / (x * q * 2.506628275) else 0) ∧
+    evalT env (uniformpdfE X P Q) = (if p ≤ x ∧ x ≤ q then 1 / (q - p) else 0) ∧
+    evalT env (logisticcdfE X P Q) = 1 / (1 + Real.exp (-(x - p) / q)) ∧
+    (p < r → r < q → evalT env (triangularpdfE X P Q R) =
+      if x < p then 0
+      else if x < r then 2 * (x - p) / ((q - p) * (r - p))
+      else if x = r then 2 / (q - p)
+      else if x ≤ q then 2 * (q - x) / ((q - p) * (q - r))
+      else 0) := by
+  intro x p q r
+  refine ⟨?_, ?_, ?_, ?_, ?_⟩
+  · rw [normalpdf_built]; exact normalpdf_def x p q
+  · rw [lognormalpdf_built]; exact lognormalpdf_def x p q
+  · rw [uniformpdf_built]; exact uniformpdf_def x p q
+  · rw [logisticcdf_built]; exact logisticcdf_def x p q
+  · intro h1 h2; rw [triangularpdf_built]; exact triangularpdf_def x p q r h1 h2
+
+/-- the build-time check of `triangularpdf` passes exactly on the domain of `triangularpdf_def`;
+that of `uniformpdf` exactly when `a ≤ b`; the scale checks exactly when `0 < s` -/
+theorem density_checks (a b c s : ℝ) :
+    (triCheck a b c = false ↔ a < c ∧ c < b) ∧ (uniformCheck a b = false ↔ a ≤ b) ∧
+    (scaleCheck s = false ↔ 0 < s) := by
+  refine ⟨?_, ?_, ?_⟩
+  · simp only [triCheck, Bool.or_eq_false_iff, NumR.le_real_false]
+  · simp only [uniformCheck, NumR.lt_real_false]
+  · simp only [scaleCheck, NumR.le_real_false, NumR.ofNat_real_zero]
+
+/-- **The formula `loglikelihoodregression` builds** is the normal log density up to 1e-9, and the
+one `likelihoodregression` builds is its exponential. -/
+theorem regression_built (env : Expr.Env ℝ) (Y M S : HE ℝ) (hs : 0 < evalT env S) :
+    |evalT env (loglikRegE Y M S)
+        - (-(evalT env Y - evalT env M) ^ 2 / (2 * evalT env S ^ 2) - Real.log (evalT env S)
+            - Real.log (2 * Real.pi) / 2)| < 1e-9 ∧
+    evalT env (likRegE Y M S) = Real.exp (evalT env (loglikRegE Y M S)) := by
+  refine ⟨?_, ?_⟩
+  · rw [loglikReg_built]; exact regression_loglik_exact_density _ _ _ hs
+  · simp only [likRegE, evalT_un, unOp, NumR.exp_real]
+
+/-- **The formula `segmented_beta` builds** evaluates, on a row lying in category `cat s` of every
+segmentation, to the reference value plus the shifts of those categories. -/
+theorem segmented_built_value (env : Expr.Env ℝ) (beta : String) (specs : List SegSpec)
+    (cat : SegSpec → Int × String)
+    (hkeys : ∀ s ∈ specs, (s.mapping.map Prod.fst).Nodup)
+    (hrow : ∀ s ∈ specs, cat s ∈ s.mapping ∧ env.var s.varName = ((cat s).1 : ℝ)) :
+    evalT env (segmentedBetaE beta specs)
+      = env.beta beta + (specs.map fun s => shiftOf beta env.beta s (cat s).2).sum := by
+  rw [segmentedBeta_built]; exact segmented_value beta specs env.beta env.var cat hkeys hrow
+
+/-- **The expression the generated code denotes** (the bare parameter when no category is left, the
+`bioMultSum` otherwise) has the value of the formula `segmented_beta` builds. -/
+theorem segmented_code_built (env : Expr.Env ℝ) (beta : String) (specs : List SegSpec) :
+    evalT env (segmentedCodeE beta specs) = evalT env (segmentedBetaE beta specs) :=
+  segmentedCode_built env beta specs
+
+/-! non-vacuity of this section: concrete trees -/
+
+noncomputable def envEx : Expr.Env ℝ := { beta := fun n => if n = "b1" then 2 else -1, var := fun _ => 3 / 2 }
+
+example : (pwVarsE (.var "x" : HE ℝ) (mkThs true [1, 2] true)).length = 3 := by decide
+example : evalT envEx (.var "x" : HE ℝ) ≠ 0 ∧ ¬(-1e-5 < evalT envEx (.num 1 : HE ℝ) ∧ evalT envEx (.num 1 : HE ℝ) < 1e-5) := by
+  simp only [evalT_var, evalT_num, envEx]; norm_num
+example : (segmentedCodeE (α := ℝ) "b" [specIncome]).size = 12
+    ∧ (segmentedCodeE (α := ℝ) "b" [⟨"v", [(1, "only")], none⟩]).size = 1 := by decide
+example : (triCheck (0 : ℝ) 3 1 = false) := (density_checks 0 3 1 1).1.mpr (by norm_num)
+
+end built
 
 end C17
